@@ -196,7 +196,7 @@ func Equal(a, b *pb.TypedValue) bool {
 		}
 		return string(av.BytesVal) == string(bv.BytesVal)
 	case *pb.TypedValue_DoubleVal:
-		bv, ok := b.Value.(*pb.TypedValue_DoubleVal)
+		bv, ok := b.GetValue().(*pb.TypedValue_DoubleVal)
 		if !ok {
 			return false
 		}
@@ -212,13 +212,13 @@ func Equal(a, b *pb.TypedValue) bool {
 		if !ok {
 			return false
 		}
-		return av.DecimalVal.Digits == bv.DecimalVal.Digits && av.DecimalVal.Precision == bv.DecimalVal.Precision
+		return av.DecimalVal.GetDigits() == bv.DecimalVal.GetDigits() && av.DecimalVal.GetPrecision() == bv.DecimalVal.GetPrecision()
 	case *pb.TypedValue_LeaflistVal:
 		bv, ok := b.GetValue().(*pb.TypedValue_LeaflistVal)
 		if !ok {
 			return false
 		}
-		ae, be := av.LeaflistVal.Element, bv.LeaflistVal.Element
+		ae, be := av.LeaflistVal.GetElement(), bv.LeaflistVal.GetElement()
 		if len(ae) != len(be) {
 			return false
 		}
